@@ -145,6 +145,7 @@ def enum_sanity(tier):
 
 def check_sanity(case):
     """The eight reference calls with their valid argument sets are accepted (everything else is derived from them)."""
+    _prime_other_uses()
     f, args, fam = _calls()[case["call"]]
     o = guarded(case["call"], f, [a for _, a in args], family=fam)
     if o != "accept":
@@ -155,6 +156,7 @@ def check_sanity(case):
 
 def check_positions(case):
     """One argument position replaced by an arbitrary Python value."""
+    _prime_other_uses()
     calls = _calls()
     f, args, fam = calls[case["call"]]
     i = case["pos"] % len(args)
@@ -164,8 +166,17 @@ def check_positions(case):
     return {"nontrivial": True, "labels": [case["call"].split("/")[0], "arg=" + args[i][0], "out=" + o]}
 
 
+def _prime_other_uses():
+    """History: the same hex values have been used as PRIVATE keys earlier in this process (any 64 hex characters are a valid
+    seed), e.g. by a signing step; the verifiers must still treat them as public keys."""
+    for k in fx()["pubs"]:
+        C.PrivateKey.from_hex(k)
+        C.PublicKey.from_hex(k)
+
+
 def check_mutations(case):
     """One structured argument with 1-2 path mutations."""
+    _prime_other_uses()
     calls = _calls()
     f, args, fam = calls[case["call"]]
     structured = [i for i, (n, a) in enumerate(args) if isinstance(a, (dict, list))]
@@ -357,6 +368,6 @@ UNITS = [
          doc="verify_signable: SignatureError when too few valid signatures on well-formed arguments"),
     Unit("fuzz", check_fuzz, enumerate=lambda tier: FZ.campaigns(tier, "C13"), shards_quick=4, shards_thorough=16,
          doc="atheris (libFuzzer) coverage-guided campaign: bytes -> JSON -> verifiers, same oracle in-target"),
-    _cfgunit.unit_under_config(PROPERTY, 'mutations', exclude=()),
-    _cfgunit.unit_under_config(PROPERTY, 'positions', exclude=()),
+    _cfgunit.unit_under_config(PROPERTY, 'mutations', exclude=(), n_cases=20),
+    _cfgunit.unit_under_config(PROPERTY, 'positions', exclude=(), n_cases=20),
 ]
